@@ -13,9 +13,21 @@ import (
 
 func init() { Registry["C12"] = checkC12 }
 
+// fieldSingleStore resolves a struct field (of the storage package's own types) to the only
+// value ever stored into it, or nil. Set by checkC12.
+var fieldSingleStore func(f *types.Var) ssa.Value
+
 // resolveCell looks through a load of a single-store local cell.
 func resolveCell(v ssa.Value) ssa.Value {
 	for i := 0; i < 4; i++ {
+		// a field of a per-scan state struct that is stored exactly once in its package
+		// (p.cutoff set when the pass is constructed)
+		if f := eng.LoadedField(v); f != nil && fieldSingleStore != nil {
+			if sv := fieldSingleStore(f); sv != nil {
+				v = sv
+				continue
+			}
+		}
 		ad := eng.LoadAddr(v)
 		if ad == nil {
 			return v
@@ -67,6 +79,24 @@ func isTimeNow(v ssa.Value) bool {
 
 func checkC12(c *Ctx) {
 	r, p := c.R, c.P
+	{
+		fns := pkgFuncs(p, "pkg/storage")
+		memo := map[*types.Var]ssa.Value{}
+		fieldSingleStore = func(f *types.Var) ssa.Value {
+			if v, ok := memo[f]; ok {
+				return v
+			}
+			memo[f] = nil
+			if f.Pkg() == nil || f.Pkg().Path() != eng.Mod+"/pkg/storage" {
+				return nil
+			}
+			sts := eng.StoresToField(fns, f)
+			if len(sts) == 1 {
+				memo[f] = sts[0].Store.Val
+			}
+			return memo[f]
+		}
+	}
 	r.Explanation = "Decides the shape of the retention scan: (D1) the scan's RemoveMessage call is control-dependent on a recognised 'older than cutoff' predicate over the same message's Date() with cutoff = time.Now() + (−period) (forms recognised after normalisation: d.Before(cutoff), cutoff.After(d), time.Since(d) > period, now.Sub(d) > period), and its arguments are Mailbox() and ID() of that very message; (D2) every non-test call of the scan lies on an edge that implies retentionPeriod > 0; (D3) every blocking operation of the scanner's own functions is a select with a ctx.Done() arm that leaves, every exit of Start closes the shutdown channel and Join waits on it; (D4) both VisitMailboxes call the visitor with no lock held (so its RemoveMessage cannot self-deadlock) and hand it a freshly made slice, not the store's own container."
 	r.NotDecided = []string{"clock/boundary behaviour at exactly the cutoff", "completeness of a scan racing with directory changes in the file store", "promptness in seconds", "blocking inside the stores (bounded by C09/NOBLOCK, not by cancellation)"}
 	r.Assumptions = []string{"time.Time.Before/After/Sub and time.Since semantics"}
@@ -203,7 +233,49 @@ func checkC12(c *Ctx) {
 				}
 			}
 		}
-		r.Check(okPos, "C12/ZERO", cons, p.InstrPos(site), "the scan is called only where retentionPeriod > 0", why)
+		if !okPos {
+			// the guard may sit in the callers of a helper that runs the scan loop
+			var lifted func(g *ssa.Function, depth int) bool
+			lifted = func(g *ssa.Function, depth int) bool {
+				if depth > 3 {
+					return false
+				}
+				sites := p.StaticCallSites(g)
+				if len(sites) == 0 {
+					return false
+				}
+				for _, cs := range sites {
+					cfn := cs.Instr.Parent()
+					at := cs.Instr.(ssa.Instruction)
+					dom := false
+					for _, b := range cfn.Blocks {
+						for k := 0; k < len(b.Succs) && len(b.Succs) == 2; k++ {
+							rel, ok := eng.EdgeRel(b, k)
+							if !ok || !eng.EdgeDominates(b, k, at.Block()) {
+								continue
+							}
+							if isPeriod(rel.Y) {
+								rel = rel.Swap()
+							}
+							if !isPeriod(rel.X) {
+								continue
+							}
+							if kk, isC := eng.ConstInt(rel.Y); isC && ((rel.Op == token.GTR && kk >= 0) || (rel.Op == token.GEQ && kk >= 1)) {
+								dom = true
+							}
+						}
+					}
+					if !dom && !lifted(cfn, depth+1) {
+						return false
+					}
+				}
+				return true
+			}
+			if lifted(fn, 0) {
+				okPos = true
+			}
+		}
+		r.Check(okPos, "C12/ZERO", cons, p.InstrPos(site), "the scan is called only where retentionPeriod > 0 (in the function or in every caller)", why)
 	}
 	// ---- D3
 	c.retentionCancel("C12/CANCEL")
